@@ -118,7 +118,7 @@ func (l *limitListener) decrement() {
 
 	l.counter.decrement()
 
-	l.counterCond.Signal()
+	l.counterCond.Broadcast()
 }
 
 // Close closes the underlying listener and signals to all goroutines waiting
